@@ -161,6 +161,30 @@ Section Tree.
     eapply ispec_mono; [exact Hd|exact Hlen|exact G|lia..].
   Qed.
 
+  (** the child loop as a step on the spine of a non-standard container *)
+  Lemma loop_ok k {Acc} m size end_ (dispatch : nat -> boxtype -> N -> Acc -> prog Acc) acc0 f cur :
+    size < 2 ^ 62 ->
+    (forall f name s acc p, 8 <= p -> p <= lenN d -> 1 <= s -> s <= size -> fuel_ok d f p ->
+       ispec d (dispatch f name s acc) p s (lvA k * s + lvB k) (lvAl k * s + lvBl k)) ->
+    fuel_ok d f cur ->
+    csat d cur (children_loop f m (Some size) true end_ dispatch acc0 cur)
+         ((lvA k + lvB k + 19) * (end_ - cur) + (lvA k * size + lvB k + 19))
+         ((lvAl k + lvBl k) * (end_ - cur) + (lvAl k * size + lvBl k))
+         (fun _ _ => True).
+  Proof.
+    intros Hsz Hdisp Hf. unfold children_loop, csat.
+    pose proof (loop_cost d Hd Hlen m size end_ (fun f _ => dispatch f) (fun x _ => x)
+                          (lvA k) (lvB k) (lvAl k) (lvBl k) Hsz) as L.
+    assert (HD : forall f cur name s0 acc p0, p0 = cur + 8 \/ p0 = cur + 16 -> p0 <= lenN d ->
+                   1 <= s0 -> s0 <= size -> fuel_ok d f p0 ->
+                   ispec d (dispatch f name s0 acc) p0 s0 (lvA k * s0 + lvB k) (lvAl k * s0 + lvBl k)).
+    { intros f0 c0 name s0 acc p0 Hp0 Hp0l Hs1 Hs2 Hf0. apply Hdisp; auto. destruct Hp0; lia. }
+    specialize (L HD f acc0 cur Hf).
+    destruct (mrun (children_loop_gen f m (Some size) true end_ (fun f0 _ => dispatch f0)
+                                      (fun x _ => x) acc0 cur) d cur) as [[r3 p3] k3].
+    destruct L as (L1 & L2 & L3). repeat split; auto.
+  Qed.
+
   Lemma skip_ok k {A} m p s (a : A) : 8 <= p -> p <= lenN d -> s < 2 ^ 62 ->
     ispec d (skip_box m s ;;; Ret a) p s (lvA k * s + lvB k) (lvAl k * s + lvBl k).
   Proof.
